@@ -506,6 +506,7 @@ func runC03(c *kit.Ctx) {
 		}
 		c03History(c, l, hi)
 	}
+	c03RunService(c)
 	c.Note("hook_hits", kit.H.HitCounts())
 }
 
